@@ -27,7 +27,7 @@ FILES = {
     'pkg/controller/statefulset/stateful_set_status_updater.go': 'C12 C09 C15 C02 C10',
     'pkg/controller/statefulset/stateful_set.go': 'C16 C10 C11 C13 C08 C02 C09 C15 C18',
     'pkg/third_party/k8s/controller_ref_manager.go': 'C10 C11 C18 C02 C09',
-    'pkg/third_party/k8s/controller_history.go': 'C08 C13 C10 C18 C02',
+    'pkg/third_party/k8s/controller_history.go': 'C08 C15 C13 C10 C18 C02',
     'pkg/third_party/k8s/controller_utils.go': 'C10 C03 C02 C05',
     'pkg/third_party/k8s/pod.go': 'C05 C12 C02 C07',
     'client/apis/apps/v1/helper/helper.go': 'C01 C19 C03 C04 C15',
